@@ -17,9 +17,9 @@
    packets its class may still send in this visit -- is part of the state: it persists across yields in the code.
 
    Actions (one per put() call or kernel step that belongs to the scheduler; what the harness observes):
-     SPut p           scheduler.put(p), p of a configured flow
+     SPut p           scheduler.put(p), p of a flow whose class is configured
      SInit            Initialize of run(): the first scan
-     SStoreCb o       a StorePut event processed: of the token store (None) or of the store of flow f (Some f)
+     SStoreCb o       a StorePut event processed: of the token store (None) or of the store of class k (Some k)
      SGetDone o       a granted StoreGet processed: run() resumes with the token (None) / with a packet of flow f
      SChildInit       Initialize of send_packet: the transmission starts
      SChildTimer      the transmission timeout fires: counters decremented, packet forwarded
@@ -36,13 +36,19 @@ Import ListNotations.
 
 Record mq_cfg := {
   rate : Q;                      (* bit/s *)
-  pass : list (Z * nat);         (* one pass of run(): (flow, packets its class may send per visit) in scan order *)
-  by_count : bool;               (* emptiness test: queue_count[flow] > 0 (RR, WRR) or store.size() != 0 (SP) *)
-  brk : bool                     (* leave the pass after a transmission (repaired SP) *)
+  pass : list (Z * nat);         (* one pass of run(): (class, packets it may send per visit) in scan order *)
+  by_count : bool;               (* emptiness test: queue_count[class] > 0 (RR, WRR) or store.size() != 0 (SP) *)
+  brk : bool;                    (* leave the pass after a transmission (repaired SP) *)
+  cls : Z -> Z;                  (* flow id -> class id = key of the per-class Store (SP: flow2class; RR, WRR: identity) *)
+  sflows : list Z                (* the flows whose counters the Monitor model reports *)
 }.
 
-Definition flows (c : mq_cfg) : list Z := map fst (pass c).
-Definition dflows (c : mq_cfg) : list Z := nodup Z.eq_dec (flows c).
+(* the class ids: keys of the stores run() scans *)
+Definition classes (c : mq_cfg) : list Z := map fst (pass c).
+Definition dclasses (c : mq_cfg) : list Z := nodup Z.eq_dec (classes c).
+(* a finite flow -> class table; flows not listed are their own class *)
+Definition cls_of (m : list (Z * Z)) (f : Z) : Z :=
+  match find (fun x => Z.eqb (fst x) f) m with Some (_, k) => k | None => f end.
 Definition memZ (f : Z) (l : list Z) : bool := existsb (Z.eqb f) l.
 
 Inductive child_st := CNone | CInit (p : pkt) | CTx (p : pkt) (dl : Q) | CEnded.
@@ -152,7 +158,7 @@ Definition child_urgent (s : mq) : bool :=
 
 Definition urgent (c : mq_cfg) (s : mq) : bool :=
   match mpc s with PNotStarted => true | _ => false end
-  || sq_urgent (mtok s) || existsb (fun f => sq_urgent (mstores s f)) (flows c) || child_urgent s.
+  || sq_urgent (mtok s) || existsb (fun f => sq_urgent (mstores s f)) (classes c) || child_urgent s.
 
 (* what the Monitor appends for flow f *)
 Definition sample_of (s : mq) (incl : bool) (f : Z) : Z * Z * Z :=
@@ -164,10 +170,11 @@ Definition sample_of (s : mq) (incl : bool) (f : Z) : Z * Z * Z :=
 Definition mq_act (c : mq_cfg) (s : mq) (a : saction) : option (mq * list sout) :=
   match a with
   | SPut p =>
-      if memZ (flow p) (flows c) && Z.leb 0 (psize p) then
+      if memZ (cls c (flow p)) (classes c) && Z.leb 0 (psize p) then
         let f := flow p in
+        let k := cls c f in
         Some ({| mnow := mnow s;
-                 mstores := upd (mstores s) f (sq_put fifo_push (mnow s) p (mstores s f));
+                 mstores := upd (mstores s) k (sq_put fifo_push (mnow s) p (mstores s k));
                  mtok := if Z.eqb (mtotal s) 0 then sq_put fifo_push (mnow s) tt (mtok s) else mtok s;
                  mqc := upd (mqc s) f (mqc s f + 1)%Z;
                  mqb := upd (mqb s) f (mqb s f + psize p)%Z;
@@ -237,7 +244,7 @@ Definition mq_act (c : mq_cfg) (s : mq) (a : saction) : option (mq * list sout) 
         | _ => Some (s', [])
         end
       else None
-  | SSample incl => Some (s, [OSample (map (sample_of s incl) (dflows c))])
+  | SSample incl => Some (s, [OSample (map (sample_of s incl) (sflows c))])
   end.
 
 (* an execution: every action must be enabled (admissible); the trace pairs each action with the instant at which
@@ -271,7 +278,8 @@ Fixpoint mq_stuck (c : mq_cfg) (s : mq) (acts : list saction) (i : nat) : option
 
 (* ---- comparison with an observed execution (correspondence) -------------------------------------------- *)
 Record obs := mkobs {
-  o_q : list (Z * Z * Z * nat);   (* per configured flow: queue_count, queue_byte_size, len(stores[f].items) *)
+  o_q : list (Z * Z * Z);         (* per observed flow: queue_count, queue_byte_size *)
+  o_st : list (Z * nat);          (* per class: len(stores[class].items) *)
   o_cur : option nat;             (* uid of current_packet *)
   o_rec : Z;                      (* packets_received *)
   o_tok : nat;                    (* len(packets_available.items) *)
@@ -307,12 +315,12 @@ Definition sample_ok (c : mq_cfg) (model : option (list (Z * Z * Z))) (seen : li
                  | Some (a', b') => Z.eqb a a' && Z.eqb b b'
                  | None => Z.eqb a 0 && Z.eqb b 0
                  end end) l
-      && forallb (fun x => memZ (fst (fst x)) (flows c)) seen
+      && forallb (fun x => memZ (fst (fst x)) (sflows c)) seen
   end.
 
 Definition obs_ok (c : mq_cfg) (s : mq) (o : obs) : bool :=
-  forallb (fun x => match x with (f, qc, qb, n) =>
-             Z.eqb (mqc s f) qc && Z.eqb (mqb s f) qb && Nat.eqb (length (items (mstores s f))) n end) (o_q o)
+  forallb (fun x => match x with (f, qc, qb) => Z.eqb (mqc s f) qc && Z.eqb (mqb s f) qb end) (o_q o)
+  && forallb (fun x => match x with (k, n) => Nat.eqb (length (items (mstores s k))) n end) (o_st o)
   && match mcur s, o_cur o with
      | Some p, Some u => Nat.eqb (uid p) u
      | None, None => true
